@@ -661,8 +661,16 @@ def rule_lookup1(ctx: Ctx) -> RuleResult:
     # LOAD-2: every path produced for an argument is handed to the selected loader, every time
     sm = ctx.prog.func("json_to_models/cli.py", "Cli.setup_models_data")
     loader = sm.params[-1]
-    loops = [n for n in walk_no_nested(sm.node) if isinstance(n, ast.For) and isinstance(n.target, ast.Name) and any(
-        isinstance(c, ast.Call) and norm(c.func) == "process_path" for c in ast.walk(n.iter))]
+    def _from_process_path(e) -> bool:
+        if any(isinstance(c, ast.Call) and norm(c.func) == "process_path" for c in ast.walk(e)):
+            return True
+        if isinstance(e, ast.Name):
+            ds = [d for d in walk_no_nested(sm.node) if isinstance(d, ast.Assign) and norm(d.targets[0]) == e.id]
+            return bool(ds) and all(_from_process_path(d.value) for d in ds)
+        if isinstance(e, ast.Call) and norm(e.func) in ("list", "tuple", "sorted", "iter") and e.args:
+            return _from_process_path(e.args[0])
+        return False
+    loops = [n for n in walk_no_nested(sm.node) if isinstance(n, ast.For) and isinstance(n.target, ast.Name) and _from_process_path(n.iter)]
     if not loops:
         raise AnalysisError("LOAD-2: loop over process_path(...) not found in setup_models_data")
     for lp in loops:
